@@ -393,9 +393,14 @@ End Requests.
 (* ---------------------------------------------------------------- responses *)
 Definition codec_via_header (h : hdrs) (b : body) : bool :=
   match b_codec b with None => true | Some _ => hmem H_CE h end.
-Definition resp_ok (r : response) : bool :=
+(* finding D59: on the tree as found the Body object must not carry a codec that the header collection does not announce
+   (what an earlier prepare of the same message object leaves behind when the caller replaces the headers); after the
+   repair prepare itself resets it, and the precondition is gone: ANY codec state of the Body object is admitted *)
+Definition codec_ok (v59 : variant) (h : hdrs) (b : body) : bool :=
+  match v59 with AsFound => codec_via_header h b | Repaired => true end.
+Definition resp_ok (v59 : variant) (r : response) : bool :=
   ver_ok (r_version r) && code_ok (r_code r) && reason_ok (r_reason r) &&
-  hdrs_ok (r_hdrs r) && te_simple (r_hdrs r) && body_ok (r_body r) && codec_via_header (r_hdrs r) (r_body r).
+  hdrs_ok (r_hdrs r) && te_simple (r_hdrs r) && body_ok (r_body r) && codec_ok v59 (r_hdrs r) (r_body r).
 
 Lemma hdrs_ok_value h k v : hdrs_ok h = true -> hget k h = Some v -> rd_no_crlf v = true.
 Proof.
@@ -484,7 +489,7 @@ Section Responses.
 Variable C : ccallees.
 
 (* the framing announced by the prepared header collection and what the prepared body emits *)
-Lemma r_prepare_framed v29 vc now r r' : resp_ok r = true -> rd_no_crlf now = true -> r_prepare C v29 now r = Some r' ->
+Lemma r_prepare_framed v59 v29 vc now r r' : resp_ok v59 r = true -> rd_no_crlf now = true -> r_prepare C v59 v29 now r = Some r' ->
   let bodiless := r_bodiless (r_code r) (r_rmethod r) in
   r_version r' = r_version r /\ r_code r' = r_code r /\ r_reason r' = r_reason r /\ r_rmethod r' = r_rmethod r /\
   hdrs_ok (r_hdrs r') = true /\ hdrs_ok (b_trailer (r_body r')) = true /\ src_ok (b_src (r_body r')) = true /\
@@ -504,7 +509,7 @@ Proof.
   { unfold b1. destruct (no_body_status code); repeat split; try reflexivity; exact Hsrc. }
   destruct Hb1 as [B1a [B1b [B1c [B1d [B1e B1f]]]]].
   (* coding + sync *)
-  assert (S23 : forall x, r_step_coding C (r_hdrs r) b1 = Some x -> exists h3 b3,
+  assert (S23 : forall x, r_step_coding C v59 (r_hdrs r) b1 = Some x -> exists h3 b3,
     sync_chunked (fst x) (snd x) = Some (h3, b3) /\ hdrs_ok h3 = true /\ te_simple h3 = true /\ (hmem H_TE h3 = true -> hget H_CL h3 = None) /\
     b_chunked b3 = hmem H_TE h3 /\ (b_codec b3 <> None -> hmem H_TE h3 = true) /\ b_ctype b3 = b_ctype b1 /\ b_trailer b3 = b_trailer b1 /\ b_src b3 = b_src b1).
   { intros [h2 b2]. unfold r_step_coding. cbn [fst snd].
@@ -523,6 +528,9 @@ Proof.
       + cbn [with_chunked b_chunked]. symmetry. exact Hm3.
       + intros _. exact Hm3.
     - intros E. injection E as <- <-. rewrite (sync_chunked_simple _ _ Hte). eexists. eexists. split; [reflexivity|].
+      assert (Hco : b_codec (match v59 with AsFound => b1 | Repaired => with_codec b1 None end) <> None -> hmem H_CE (r_hdrs r) = true).
+      { destruct v59; cbn [with_codec b_codec codec_ok] in *; [|congruence]. rewrite B1b. intros Hne. unfold codec_via_header in Hcodec.
+        destruct (b_codec (r_body r)); [exact Hcodec | congruence]. }
       assert (Hm : hmem H_TE (if hmem H_TE (r_hdrs r) then hdel H_CL (r_hdrs r) else r_hdrs r) = hmem H_TE (r_hdrs r)).
       { destruct (hmem H_TE (r_hdrs r)) eqn:E; [|exact E]. rewrite hmem_hdel_iff, E. reflexivity. }
       pose proof (te_simple_value _ Hte) as V.
@@ -531,9 +539,11 @@ Proof.
       + unfold te_simple. destruct (hmem H_TE (r_hdrs r)); hg; rewrite V; reflexivity.
       + rewrite Hm. intros Ht. rewrite Ht. hg. reflexivity.
       + cbn [with_chunked b_chunked]. symmetry. exact Hm.
-      + cbn [with_chunked b_codec]. rewrite B1b. intros Hne. unfold codec_via_header in Hcodec. rewrite hmem_hget, Ece in Hcodec.
-        destruct (b_codec (r_body r)); [discriminate | congruence]. }
-  destruct (r_step_coding C (r_hdrs r) b1) as [[h2 b2]|] eqn:E2; [|discriminate].
+      + cbn [with_chunked b_codec]. intros Hne. apply Hco in Hne. rewrite hmem_hget, Ece in Hne. discriminate.
+      + destruct v59; reflexivity.
+      + destruct v59; reflexivity.
+      + destruct v59; reflexivity. }
+  destruct (r_step_coding C v59 (r_hdrs r) b1) as [[h2 b2]|] eqn:E2; [|discriminate].
   destruct (S23 _ eq_refl) as [h3 [b3 [E3 [Hh3 [Ht3 [Hcl3 [Hch3 [Hco3 [Hct3 [Htr3 Hsrc3]]]]]]]]]]. cbn [fst snd] in E3. rewrite E3. clear E3 S23.
   set (t := hmem H_TE h3) in *.
   pose proof (te_simple_value _ Ht3) as V3. fold t in V3.
@@ -642,7 +652,7 @@ Qed.
 Definition r_sent_pieces (r : response) : list bytes :=
   if no_body_status (r_code r) || bytes_eqb (r_rmethod r) M_HEAD then [] else src_pieces (b_src (r_body r)).
 
-Theorem response_framing v29 vc now r r' : resp_ok r = true -> rd_no_crlf now = true -> r_prepare C v29 now r = Some r' ->
+Theorem response_framing v59 v29 vc now r r' : resp_ok v59 r = true -> rd_no_crlf now = true -> r_prepare C v59 v29 now r = Some r' ->
   let bodiless := r_bodiless (r_code r) (r_rmethod r) in
   (v29 = Repaired \/ bodiless = false \/ hmem H_TE (r_hdrs r') = false) ->
   exists fr, framed_as false bodiless (fst (r_compose C vc r'))
@@ -651,7 +661,7 @@ Theorem response_framing v29 vc now r r' : resp_ok r = true -> rd_no_crlf now = 
     (fr <> FChunked -> bodiless = false -> b_codec (r_body r') = None).
 Proof.
   intros Hok Hnow Hp bodiless Hv.
-  destruct (r_prepare_framed C v29 vc now r r' Hok Hnow Hp) as [Ev [Ec [Er [Em [Hh [Htr [Hso [Hpi [fr [Hf [Hb1 Hb2]]]]]]]]]]]. cbv zeta in Hb1, Hb2. fold bodiless in Hb1, Hb2.
+  destruct (r_prepare_framed C v59 v29 vc now r r' Hok Hnow Hp) as [Ev [Ec [Er [Em [Hh [Htr [Hso [Hpi [fr [Hf [Hb1 Hb2]]]]]]]]]]]. cbv zeta in Hb1, Hb2. fold bodiless in Hb1, Hb2.
   unfold resp_ok in Hok.
   apply andb_true_iff in Hok as [Hok _]. apply andb_true_iff in Hok as [Hok _]. apply andb_true_iff in Hok as [Hok _].
   apply andb_true_iff in Hok as [Hok _]. apply andb_true_iff in Hok as [Hok Hreason]. apply andb_true_iff in Hok as [Hver Hcode].
@@ -693,16 +703,40 @@ Lemma lsplit_clean_plain : lsplit_clean C_plain.
 Proof. intros k v H. cbn. rewrite H. reflexivity. Qed.
 
 Lemma head_chunked_refuted :
-  resp_ok D29_response = true /\
-  exists r', r_prepare C_plain AsFound D29_now D29_response = Some r' /\
+  resp_ok AsFound D29_response = true /\
+  exists r', r_prepare C_plain AsFound AsFound D29_now D29_response = Some r' /\
              forall pl, ~ wf_http1 false true (fst (r_compose C_plain AsFound r')) pl.
 Proof.
   split; [vm_compute; reflexivity|]. eexists. split; [vm_compute; reflexivity|].
   intros pl [res [H _]]. vm_compute in H. discriminate.
 Qed.
 Lemma head_chunked_repaired_example :
-  exists r', r_prepare C_plain Repaired D29_now D29_response = Some r' /\ wf_http1 false true (fst (r_compose C_plain AsFound r')) [].
+  exists r', r_prepare C_plain AsFound Repaired D29_now D29_response = Some r' /\ wf_http1 false true (fst (r_compose C_plain AsFound r')) [].
 Proof. eexists. split; [vm_compute; reflexivity|]. eexists. split; vm_compute; reflexivity. Qed.
+
+(* finding D59 on the tree as found: the Body object of a response that was prepared once with Content-Encoding: gzip still carries
+   the codec; the caller replaced the headers (no Content-Encoding) and the content (b'second').  prepare announces the length of the
+   content and compose sends the coded octets: not one well-formed message.  [C_mark]: a coder whose output differs from its input. *)
+Definition C_mark : ccallees := {| cc_comp := fun _ d => X "1f8b" ++ d; cc_lsplit := fun _ v => [v]; cc_ce := fun _ => None |}.
+Definition D59_response : response :=
+  {| r_version := (1, 1); r_code := 200; r_reason := X "4f4b"; r_rmethod := X "474554";
+     r_hdrs := [(X "582d41", X "76")];
+     r_body := {| b_src := SBytesIO (X "7365636f6e64") 0; b_chunked := false; b_codec := Some 1; b_ctype := X "746578742f706c61696e"; b_trailer := [] |} |}.
+
+Lemma stale_coding_refuted :
+  resp_ok Repaired D59_response = true /\ resp_ok AsFound D59_response = false /\
+  exists r', r_prepare C_mark AsFound Repaired D29_now D59_response = Some r' /\
+             hget H_CL (r_hdrs r') = Some (X "36") /\ hget H_CE (r_hdrs r') = None /\ b_codec (r_body r') = Some 1 /\
+             forall pl, ~ wf_http1 false false (fst (r_compose C_mark AsFound r')) pl.
+Proof.
+  split; [vm_compute; reflexivity|]. split; [vm_compute; reflexivity|]. eexists. split; [vm_compute; reflexivity|].
+  split; [vm_compute; reflexivity|]. split; [vm_compute; reflexivity|]. split; [vm_compute; reflexivity|].
+  intros pl [res [H _]]. vm_compute in H. discriminate.
+Qed.
+Lemma stale_coding_repaired_example :
+  exists r', r_prepare C_mark Repaired Repaired D29_now D59_response = Some r' /\ b_codec (r_body r') = None /\
+             wf_http1 false false (fst (r_compose C_mark AsFound r')) (X "7365636f6e64").
+Proof. eexists. split; [vm_compute; reflexivity|]. split; [vm_compute; reflexivity|]. eexists. split; vm_compute; reflexivity. Qed.
 
 Lemma hframing_never_both h fr : hframing h fr ->
   (fr = FChunked -> hget H_CL h = None) /\ (forall n, fr = FLength n -> hget H_TE h = None).
